@@ -85,9 +85,33 @@ func (env *CEnv) eval(e *CExpr) Val {
 		sub := env
 		var bound []*Term
 		for _, v := range e.Vars {
-			b := Sym(c.freshName(v), SInt)
+			srt := SInt
+			if i := strings.Index(v, ":"); i >= 0 {
+				switch v[i+1:] {
+				case "int":
+				case "bool":
+					srt = SBool
+				case "arr":
+					srt = SArr(SInt)
+				case "arr2":
+					srt = SArr(SArr(SInt))
+				case "arr3":
+					srt = SArr(SArr(SArr(SInt)))
+				default:
+					srt = Sort(v[i+1:])
+				}
+				v = v[:i]
+			}
+			b := Sym(c.freshName(v), srt)
 			bound = append(bound, b)
-			sub = sub.with(v, intSV(b))
+			switch {
+			case srt == SInt:
+				sub = sub.with(v, intSV(b))
+			case srt == SBool:
+				sub = sub.with(v, boolSV(b))
+			default:
+				sub = sub.with(v, SV{b, nil})
+			}
 		}
 		body := sub.evalBool(e.X)
 		if e.Kind == "forall" {
